@@ -98,6 +98,17 @@ func BuildTar(entries []Entry, vars map[string]string) ([]byte, error) {
 		if e.Sec == 0 && e.Nsec == 0 {
 			h.ModTime = time.Unix(0, 0)
 		}
+		if e.Type == "xglobal" {
+			// the writer refuses a global header that carries anything but records
+			h = &tar.Header{Name: name, Typeflag: tar.TypeXGlobalHeader, PAXRecords: e.PAX}
+			if len(h.PAXRecords) == 0 {
+				h.PAXRecords = map[string]string{"comment": "x"}
+			}
+			if err := tw.WriteHeader(h); err != nil {
+				return nil, fmt.Errorf("tarx: header %q: %w", name, err)
+			}
+			continue
+		}
 		if len(e.PAX) > 0 {
 			h.PAXRecords = e.PAX
 		}
